@@ -30,12 +30,15 @@ def _run_one(args):
             text = f.read()
     except OSError:
         return {"mutant": name, "status": "not-applicable", "why": f"{relpath} missing"}
-    if text.count(old) < 1:
+    edits = old if isinstance(old, list) else [(old, new)]
+    if any(text.count(o) < 1 for o, _ in edits):
         return {"mutant": name, "status": "not-applicable", "why": "anchor text not present in the current tree"}
     d = tempfile.mkdtemp(prefix="bnpsa_mut_", dir=_scratch_root())
     try:
         shutil.copytree(os.path.join(root, "bionumpy"), os.path.join(d, "bionumpy"), ignore=shutil.ignore_patterns("__pycache__", "*.pyc"))
-        mtext = text.replace(old, new, 1)
+        mtext = text
+        for o, nw in edits:
+            mtext = mtext.replace(o, nw, 1)
         with open(os.path.join(d, relpath), "w") as f:
             f.write(mtext)
         try:
